@@ -295,8 +295,20 @@ def coq_tree(L, entries):
 class World:
     """Runs ops on the real signac inside directory `root`."""
 
-    def __init__(self, root, same_trees=True):
+    def __init__(self, root, same_trees=True, names=None, cwds=None, prov_seed=None):
+        """names: model root name -> real directory name below `root` (default: the same); cwds: directories (all
+        inside the case's scratch directory) the harness-only op ChDir switches between; prov_seed: if given, Project
+        objects after the first are obtained in varying ways (constructor / get_project / init_project, absolute /
+        relative to the current working directory / with '..' / with a trailing slash).  The model identifies a project
+        by its canonical root, so none of this exists in the model."""
+        import random
         import signac  # noqa: F401  (import here: PYTHONPATH decides which signac)
+
+        self.names = dict(names or {})
+        self.unnames = {v: k for k, v in self.names.items()}
+        self.cwds = list(cwds or [])
+        self.prov_rng = random.Random(prov_seed) if prov_seed is not None else None
+        self.prov_log = []
 
         logging.disable(logging.CRITICAL)
         self.root = root
@@ -311,6 +323,41 @@ class World:
         self.prev_sig = self.signature()
         self.same_trees = same_trees
 
+    def real(self, name):
+        return self.names.get(name, name)
+
+    def model_comps(self, comps):
+        return [self.unnames.get(comps[0], comps[0])] + list(comps[1:]) if comps else comps
+
+    def project(self, name, first=False):
+        """A Project object for model root `name`, obtained the way the provenance policy says."""
+        import signac
+        path = os.path.join(self.root, self.real(name))
+        if self.prov_rng is None:
+            return signac.init_project(path=path) if first else signac.Project(path)
+        rel = os.path.relpath(path, os.getcwd())
+        modes = ["init-abs", "init-rel"] if first else ["ctor-abs", "get-abs", "get-rel", "ctor-rel", "ctor-rel", "dotdot",
+                                                         "slash", "init-rel", "rel-slash"]
+        mode = self.prov_rng.choice(modes)
+        self.prov_log.append([name, mode, os.path.relpath(os.getcwd(), os.path.dirname(self.root))])
+        if mode == "init-abs":
+            return signac.init_project(path=path)
+        if mode == "init-rel":
+            return signac.init_project(path=rel)
+        if mode == "ctor-abs":
+            return signac.Project(path)
+        if mode == "get-abs":
+            return signac.get_project(path)
+        if mode == "get-rel":
+            return signac.get_project(rel)
+        if mode == "ctor-rel":
+            return signac.Project(rel)
+        if mode == "dotdot":
+            return signac.Project(os.path.join(path, os.pardir, os.path.basename(path)))
+        if mode == "slash":
+            return signac.Project(path + os.sep)
+        return signac.Project(rel + os.sep)
+
     # ---- observations of the file system
     def tree(self):
         out = []
@@ -320,7 +367,7 @@ class World:
                 continue
             for dirpath, dirnames, filenames in os.walk(ws):
                 dirnames.sort()
-                rel = os.path.relpath(dirpath, self.root).split(os.sep)
+                rel = self.model_comps(os.path.relpath(dirpath, self.root).split(os.sep))
                 for d in dirnames:
                     out.append((rel + [d], "dir", ""))
                 for f in sorted(filenames):
@@ -330,9 +377,9 @@ class World:
             if os.path.isfile(cf):
                 import gzip
                 with gzip.open(cf, "rb") as fh:
-                    out.append(([proj, DOTSIG, CACHEFN], "cache", typed(json.loads(fh.read().decode()))))
+                    out.append(([self.unnames.get(proj, proj), DOTSIG, CACHEFN], "cache", typed(json.loads(fh.read().decode()))))
         for sp in self.strays():
-            comps = [c for c in sp.split(os.sep) if c != "."]
+            comps = self.model_comps([c for c in sp.split(os.sep) if c != "."])
             out.append((comps, "dir" if os.path.isdir(os.path.join(self.root, sp)) else "file", ""))
         out.sort(key=lambda e: (e[0], e[1]))
         return out
@@ -358,7 +405,7 @@ class World:
         """ids, statepoint(), document(), recursive file listing through a brand-new Project, and check()."""
         import signac
         from signac.errors import JobsCorruptedError
-        p = signac.Project(os.path.join(self.root, proj))
+        p = signac.Project(os.path.join(self.root, self.real(proj)))
         jobs = []
         for job in p:
             try:
@@ -406,22 +453,23 @@ class World:
         H = self.handles
         try:
             if k == "NewSession":
-                path = os.path.join(self.root, op[1])
+                path = os.path.join(self.root, self.real(op[1]))
                 if path not in self.inited:
                     os.makedirs(path, exist_ok=True)
-                    if not os.path.isdir(os.path.join(path, ".signac")):
-                        p = signac.init_project(path=path)
-                    else:
-                        p = signac.Project(path)
+                    p = self.project(op[1], first=not os.path.isdir(os.path.join(path, ".signac")))
                     self.inited.add(path)
                     # the config directory is not part of the model: its creation must not count as a mutation
                     self.prev_sig = None
                 else:
-                    p = signac.Project(path)
+                    p = self.project(op[1])
                 self.sessions.append(p)
                 if op[1] not in self.roots:
                     self.roots.append(op[1])
                 return ["unit"]
+            if k == "ChDir":
+                # harness-only: the process changes its working directory (always to a directory inside the scratch area)
+                os.chdir(self.cwds[op[1] % len(self.cwds)])
+                return None
             if k == "OpenSp":
                 arg = untyped(op[2])
                 j = self.sessions[op[1]].open_job(arg)
@@ -461,7 +509,7 @@ class World:
                 return ["json", typed(to_plain(ast.literal_eval(text[at:-1])))]
             if k == "IdPath":
                 j = H[op[1]]
-                return ["idpath", j.id, os.path.relpath(j.path, self.root).split(os.sep)]
+                return ["idpath", j.id, self.model_comps(os.path.relpath(j.path, self.root).split(os.sep))]
             if k == "Doc":
                 return ["json", typed(to_plain(H[op[1]].document()))]
             if k == "DocReset":
@@ -474,10 +522,10 @@ class World:
                     fh.write(bytes.fromhex(op[3]))
                 return ["unit"]
             if k == "PlantDir":
-                os.makedirs(os.path.join(self.root, *op[1]), exist_ok=True)
+                os.makedirs(os.path.join(self.root, self.real(op[1][0]), *op[1][1:]), exist_ok=True)
                 return ["unit"]
             if k == "PlantFile":
-                with open(os.path.join(self.root, *op[1]), "wb") as fh:
+                with open(os.path.join(self.root, self.real(op[1][0]), *op[1][1:]), "wb") as fh:
                     fh.write(bytes.fromhex(op[2]))
                 return ["unit"]
             if k == "Ids":
@@ -521,7 +569,8 @@ class World:
                 line = [x for x in p.stdout.splitlines() if x.startswith("OUTS=")]
                 if not line:
                     raise RuntimeError("fresh process failed: " + p.stderr[-300:])
-                return ["list", json.loads(line[0][5:])]
+                return ["list", [([o[0], o[1], self.model_comps(o[2])] if o[0] == "idpath" else o)
+                                 for o in json.loads(line[0][5:])]]
             if k == "Edit":
                 obj = H[op[1]].statepoint
                 for st in op[2]:
